@@ -9,6 +9,20 @@
 //   sim        [int dim, mat Tq, int seed, mat x0, int len (0: the constructor must throw), word ops: b | r | o]
 //   sensor     [sim operands + word idxs, mat R, int seed2, word ops: f | r | o]
 //   grid       [mat area 1x4, int nx, int ny, int np, int ctor4, mat st0 4xnp, mat w0 npx1]
+//   gridseq    [two initialisers: mat area<i>, int nx<i> ny<i> ctor4_<i> (i = 0, 1; int copy1: initialiser 1 is a copy);
+//               int nsets, per set s: int rows<s>, int np<s>, word layout<s> (lin | lincirc | quat | linnoise);
+//               int steps, per step k: int init<k>, int set<k>, int fill<k>, mat st<k>, mat w<k>]
+//               one process-lifetime pair of initialisers applied to a pool of particle sets, in any order, repeatedly
+// Further operands of wna: int intrude (callback re-entrancy: an independent twin model of the same shapes runs a
+//   complete cycle inside every virtual callback of the subject and between the calls), int conc (three models used
+//   from three threads), mat Tq2 / int seed2 / int pre2 (the twin; also the target of a move assignment), and the
+//   script operations b<k> / u<k> (motion / transition density through strided blocks of larger matrices),
+//   s<k> (setSamplingTime(S<k>)), c<k> / a<k> / v<k> (the subject is replaced by the object obtained from it by move
+//   construction / move assignment onto a used object with other parameters / growth of a std::vector).
+// lti_state: word how (fresh | move_ctor | move_assign | self_assign | vector | chain), mat F2, Q2 (the other object).
+// ltisim: a trajectory (and a sensor) over a user-defined additive linear model with linear and circular state components
+//   whose noise samples are given columns (see run_ltisim).  linmodel / sim / sensor / gridseq: int conc (thread probe).
+// sim / sensor: int intrude, int premove (the state model has drawn that many samples and is then move-constructed).
 // The standard-normal draws the library's generators produce are mirrored here
 // (same engine, same distribution object type, same seed, same order) and printed
 // as `draws`; the LDLT factor of a WhiteNoiseAcceleration is private, so it is
@@ -26,6 +40,9 @@
 #include <BayesFilters/WhiteNoiseAcceleration.h>
 #include <random>
 #include <sstream>
+#include <sys/types.h>
+#include <sys/wait.h>
+#include <unistd.h>
 
 using namespace bfl;
 using namespace Eigen;
@@ -49,16 +66,68 @@ static WhiteNoiseAcceleration::Dim dim_of(long k) {
     return k == 1 ? WhiteNoiseAcceleration::Dim::OneD : k == 2 ? WhiteNoiseAcceleration::Dim::TwoD : WhiteNoiseAcceleration::Dim::ThreeD;
 }
 
+// The subject's class: every virtual callback first lets the intruder (if one is set) run.
+struct IntrWNA : public WhiteNoiseAcceleration {
+    IntrWNA(Dim d, double T, double q) : WhiteNoiseAcceleration(d, T, q) {}
+    IntrWNA(Dim d, double T, double q, unsigned int seed) : WhiteNoiseAcceleration(d, T, q, seed) {}
+    IntrWNA(IntrWNA&&) = default;
+    IntrWNA& operator=(IntrWNA&&) = default;
+    MatrixXd getNoiseSample(const std::size_t num) override { vf::intrude(); return WhiteNoiseAcceleration::getNoiseSample(num); }
+    MatrixXd getStateTransitionMatrix() override { vf::intrude(); return WhiteNoiseAcceleration::getStateTransitionMatrix(); }
+    MatrixXd getNoiseCovarianceMatrix() override { vf::intrude(); return WhiteNoiseAcceleration::getNoiseCovarianceMatrix(); }
+    VectorDescription getStateDescription() override { vf::intrude(); return WhiteNoiseAcceleration::getStateDescription(); }
+};
+struct IntrSim : public SimulatedStateModel {
+    IntrSim(std::unique_ptr<StateModel> m, const Ref<const VectorXd>& x0, unsigned int len) : SimulatedStateModel(std::move(m), x0, len) {}
+    bool bufferData() override { vf::intrude(); return SimulatedStateModel::bufferData(); }
+    Data getData() const override { vf::intrude(); return SimulatedStateModel::getData(); }
+};
+
+// deterministic filler for the twin's data
+static MatrixXd lcg_mat(long r, long c, unsigned long& st, double scale) {
+    MatrixXd m(r, c);
+    for (long j = 0; j < c; j++) for (long i = 0; i < r; i++) {
+        st = st * 6364136223846793005UL + 1442695040888963407UL;
+        m(i, j) = scale * (double((st >> 11) & 0xFFFFF) / double(0xFFFFF) - 0.5);
+    }
+    return m;
+}
+
 static void out_shape(const std::string& name, const MatrixXd& M) {
     std::cout << "mat " << name << " " << M.rows() << " " << M.cols();
     for (long i = 0; i < M.rows(); i++) for (long j = 0; j < M.cols(); j++) std::cout << " " << vf::fmt(M(i, j));
     std::cout << "\n";
 }
 
-static std::unique_ptr<WhiteNoiseAcceleration> make_wna(long dim, double T, double q, unsigned int seed, bool defseed) {
+static std::unique_ptr<IntrWNA> make_wna(long dim, double T, double q, unsigned int seed, bool defseed) {
     vf::Entry e("WhiteNoiseAcceleration::WhiteNoiseAcceleration");
-    if (defseed) return std::unique_ptr<WhiteNoiseAcceleration>(new WhiteNoiseAcceleration(dim_of(dim), T, q));
-    return std::unique_ptr<WhiteNoiseAcceleration>(new WhiteNoiseAcceleration(dim_of(dim), T, q, seed));
+    if (defseed) return std::unique_ptr<IntrWNA>(new IntrWNA(dim_of(dim), T, q));
+    return std::unique_ptr<IntrWNA>(new IntrWNA(dim_of(dim), T, q, seed));
+}
+
+// An independent model with other parameters and other data of the same shapes; one cycle = every entry point once.
+struct Twin {
+    std::unique_ptr<IntrWNA> w; long d; unsigned long st; double sp, sv; long cols = 1;
+    Twin(long dim, double T, double q, unsigned int seed) : w(new IntrWNA(dim_of(dim), T, q, seed)), d(2 * dim), st(seed * 2654435761UL + 12345UL),
+        sp(std::sqrt(q * T * T * T / 3.0)), sv(std::sqrt(q * T)) {}
+    MatrixXd data(long c) { MatrixXd m = lcg_mat(d, c, st, 6.0); for (long i = 0; i < d; i++) m.row(i) *= (i % 2 == 0 ? sp : sv); return m; }
+    void cycle() {
+        const long c = cols > 0 ? cols : 1;
+        MatrixXd X = data(c), Y = MatrixXd::Constant(d, c, 3.25), P = data(c), C = data(c);
+        w->getNoiseSample((std::size_t)c); w->motion(X, Y); w->getTransitionProbability(P, C);
+        w->getStateTransitionMatrix(); w->getNoiseCovarianceMatrix();
+    }
+};
+
+// see cpp/h_C18.cpp: the thread probe runs in a forked child, which reports through its exit status
+static int concurrent_probe(const std::vector<std::function<MatrixXd()>>& jobs, int reps) {
+    std::cout.flush(); fflush(stdout);
+    const pid_t pid = fork();
+    if (pid < 0) return vf::concurrent_same(jobs, reps) ? 1 : 0;
+    if (pid == 0) { const bool ok = vf::concurrent_same(jobs, reps); _exit(ok ? 0 : 1); }
+    int status = 0;
+    if (waitpid(pid, &status, 0) != pid) return 0;
+    return (WIFEXITED(status) && WEXITSTATUS(status) == 0) ? 1 : 0;
 }
 
 // observe the factor used for sampling on the instance under test (its first d*d draws), and
@@ -67,8 +136,8 @@ static void probe(WhiteNoiseAcceleration& wna, Mirror& mir, long dim, double T, 
     MatrixXd S, S2, S3;
     { vf::Entry e("WhiteNoiseAcceleration::getNoiseSample"); S = wna.getNoiseSample(d); }
     {
-        std::unique_ptr<WhiteNoiseAcceleration> twin = make_wna(dim, T, q, seed, defseed);
-        std::unique_ptr<WhiteNoiseAcceleration> other = make_wna(dim, T, q, defseed ? 2u : seed + 1u, false);
+        std::unique_ptr<IntrWNA> twin = make_wna(dim, T, q, seed, defseed);
+        std::unique_ptr<IntrWNA> other = make_wna(dim, T, q, defseed ? 2u : seed + 1u, false);
         vf::Entry e("WhiteNoiseAcceleration::getNoiseSample");
         S2 = twin->getNoiseSample(d); S3 = other->getNoiseSample(d);
     }
@@ -126,59 +195,212 @@ static std::vector<std::size_t> indices(const std::vector<std::string>& w) {
     std::vector<std::size_t> v; for (auto& s : w) v.push_back((std::size_t)std::stoul(s)); return v;
 }
 
+// a d x c matrix placed inside a (d+2) x (c+3) frame: block(1, 2, d, c) is a strided view (outer stride d+2)
+static MatrixXd framed(const MatrixXd& X, double fill) {
+    MatrixXd big = MatrixXd::Constant(X.rows() + 2, X.cols() + 3, fill);
+    big.block(1, 2, X.rows(), X.cols()) = X;
+    return big;
+}
+static bool frame_kept(const MatrixXd& big, long r, long c, double fill) {
+    for (long i = 0; i < big.rows(); i++) for (long j = 0; j < big.cols(); j++) {
+        const bool inside = i >= 1 && i < 1 + r && j >= 2 && j < 2 + c;
+        if (!inside && big(i, j) != fill) return false;
+    }
+    return true;
+}
+
 static void run_wna(const vf::Case& c) {
     const long dim = c.integer("dim"); const double T = c.mat("Tq")(0, 0), q = c.mat("Tq")(0, 1);
     const bool defseed = c.has_int("defseed") && c.integer("defseed") != 0;
     const unsigned int seed = defseed ? 1u : (unsigned int)c.integer("seed");
     const long d = 2 * dim;
-    std::unique_ptr<WhiteNoiseAcceleration> wnap = make_wna(dim, T, q, seed, defseed);
-    WhiteNoiseAcceleration& wna = *wnap;
+    const bool intrude = c.has_int("intrude") && c.integer("intrude") != 0;
+    const double T2 = c.has_mat("Tq2") ? c.mat("Tq2")(0, 0) : 2.0 * T, q2 = c.has_mat("Tq2") ? c.mat("Tq2")(0, 1) : 0.5 * q;
+    const unsigned int seed2 = c.has_int("seed2") ? (unsigned int)c.integer("seed2") : seed + 17u;
+    const long pre2 = c.has_int("pre2") ? c.integer("pre2") : 0;
+    const long dim2 = c.has_int("dim2") ? c.integer("dim2") : dim;
+    // reference: an object built from the same arguments that receives the same calls but is never moved and is used
+    // while no other object is; the subject's results must equal its results bit for bit
+    std::vector<MatrixXd> ref_out;
+    {
+        std::unique_ptr<IntrWNA> ref = make_wna(dim, T, q, seed, defseed);
+        { vf::Entry e("WhiteNoiseAcceleration::getNoiseSample"); ref->getNoiseSample((std::size_t)d); }
+        for (const std::string& op : c.word("script")) {
+            const long arg = std::stol(op.substr(1));
+            MatrixXd r;
+            if (op[0] == 'n') { vf::Entry e("WhiteNoiseAcceleration::getNoiseSample"); r = ref->getNoiseSample((std::size_t)arg); }
+            else if (op[0] == 'm' || op[0] == 'b') { vf::Entry e("WhiteNoiseAcceleration::motion"); const MatrixXd& X = c.mat("X" + std::to_string(arg)); r = MatrixXd::Zero(X.rows(), X.cols()); ref->motion(X, r); }
+            else if (op[0] == 't' || op[0] == 'u') { vf::Entry e("WhiteNoiseAcceleration::getTransitionProbability"); r = ref->getTransitionProbability(c.mat("P" + std::to_string(arg)), c.mat("C" + std::to_string(arg))); }
+            else if (op[0] == 's') ref->setSamplingTime(c.mat("S" + std::to_string(arg))(0, 0));
+            ref_out.push_back(r);
+        }
+    }
+    long ref_diff_at = -1;
+    // the subject lives on the heap, or (after a v operation) in a vector
+    std::unique_ptr<IntrWNA> heap = make_wna(dim, T, q, seed, defseed);
+    std::vector<IntrWNA> vec;
+    IntrWNA* subj = heap.get();
     Mirror mir(seed);
     MatrixXd F, Q; long ssize;
-    { vf::Entry e("WhiteNoiseAcceleration::getStateTransitionMatrix"); F = wna.getStateTransitionMatrix(); }
-    { vf::Entry e("WhiteNoiseAcceleration::getNoiseCovarianceMatrix"); Q = wna.getNoiseCovarianceMatrix(); }
-    { vf::Entry e("WhiteNoiseAcceleration::getStateDescription"); ssize = (long)wna.getStateDescription().total_size(); }
+    { vf::Entry e("WhiteNoiseAcceleration::getStateTransitionMatrix"); F = subj->getStateTransitionMatrix(); }
+    { vf::Entry e("WhiteNoiseAcceleration::getNoiseCovarianceMatrix"); Q = subj->getNoiseCovarianceMatrix(); }
+    { vf::Entry e("WhiteNoiseAcceleration::getStateDescription"); ssize = (long)subj->getStateDescription().total_size(); }
     vf::out_mat("F", F); vf::out_mat("Q", Q); vf::out_int("state_size", ssize);
-    vf::out_int("set_property", wna.setProperty("reset") ? 1 : 0);
-    probe(wna, mir, dim, T, q, seed, defseed, d);
+    vf::out_int("set_property", subj->setProperty("reset") ? 1 : 0);
+    probe(*subj, mir, dim, T, q, seed, defseed, d);
+    Twin twin(dim, T2, q2, seed2);
+    if (intrude) vf::set_intruder([&twin]() { twin.cycle(); });
+    auto getters = [&](const std::string& name) {
+        MatrixXd F1, Q1; long s1;
+        { vf::Entry e("WhiteNoiseAcceleration::getStateTransitionMatrix"); F1 = subj->getStateTransitionMatrix(); }
+        { vf::Entry e("WhiteNoiseAcceleration::getNoiseCovarianceMatrix"); Q1 = subj->getNoiseCovarianceMatrix(); }
+        { vf::Entry e("WhiteNoiseAcceleration::getStateDescription"); s1 = (long)subj->getStateDescription().total_size(); }
+        vf::out_mat(name + "_F", F1); vf::out_mat(name + "_Q", Q1); vf::out_int(name + "_ss", s1);
+    };
     long k = 0;
     for (const std::string& op : c.word("script")) {
         const std::string name = "r" + std::to_string(k);
         const long arg = std::stol(op.substr(1));
         if (op[0] == 'n') {
+            twin.cols = arg;
             MatrixXd s;
-            { vf::Entry e("WhiteNoiseAcceleration::getNoiseSample"); s = wna.getNoiseSample((std::size_t)arg); }
+            { vf::Entry e("WhiteNoiseAcceleration::getNoiseSample"); s = subj->getNoiseSample((std::size_t)arg); }
             mir.draw(d * arg);
             out_shape(name, s);
+            if (ref_diff_at < 0 && !vf::bit_equal(s, ref_out[(std::size_t)k])) ref_diff_at = k;
         } else if (op[0] == 'm') {
             const MatrixXd& X = c.mat("X" + std::to_string(arg));
+            twin.cols = X.cols();
             MatrixXd Y = MatrixXd::Constant(X.rows(), X.cols(), -7.5);
             MatrixXd Xc = X;
-            { vf::Entry e("WhiteNoiseAcceleration::motion"); wna.motion(Xc, Y); }
+            { vf::Entry e("WhiteNoiseAcceleration::motion"); subj->motion(Xc, Y); }
             mir.draw(d * X.cols());
             out_shape(name, Y);
             vf::out_int(name + "_input_kept", vf::bit_equal(X, Xc) ? 1 : 0);
-        } else if (op[0] == 't') {
+            if (ref_diff_at < 0 && !vf::bit_equal(Y, ref_out[(std::size_t)k])) ref_diff_at = k;
+        } else if (op[0] == 'b') {
+            // the same through strided views: input and output are blocks of larger matrices (what
+            // SimulatedStateModel does with the columns of target_); the frames must stay as they were
+            const MatrixXd& X = c.mat("X" + std::to_string(arg));
+            twin.cols = X.cols();
+            MatrixXd bigX = framed(X, 11.5), bigY = MatrixXd::Constant(X.rows() + 2, X.cols() + 3, -7.5);
+            const MatrixXd bigX0 = bigX;
+            { vf::Entry e("WhiteNoiseAcceleration::motion[Block]"); subj->motion(bigX.block(1, 2, X.rows(), X.cols()), bigY.block(1, 2, X.rows(), X.cols())); }
+            mir.draw(d * X.cols());
+            out_shape(name, MatrixXd(bigY.block(1, 2, X.rows(), X.cols())));
+            vf::out_int(name + "_input_kept", vf::bit_equal(bigX, bigX0) ? 1 : 0);
+            vf::out_int(name + "_frame_kept", frame_kept(bigY, X.rows(), X.cols(), -7.5) ? 1 : 0);
+            if (ref_diff_at < 0 && !vf::bit_equal(MatrixXd(bigY.block(1, 2, X.rows(), X.cols())), ref_out[(std::size_t)k])) ref_diff_at = k;
+        } else if (op[0] == 't' || op[0] == 'u') {
             const MatrixXd& P = c.mat("P" + std::to_string(arg)); const MatrixXd& C = c.mat("C" + std::to_string(arg));
+            twin.cols = P.cols();
             VectorXd v;
-            { vf::Entry e("WhiteNoiseAcceleration::getTransitionProbability"); v = wna.getTransitionProbability(P, C); }
+            if (op[0] == 't') { vf::Entry e("WhiteNoiseAcceleration::getTransitionProbability"); v = subj->getTransitionProbability(P, C); }
+            else {
+                MatrixXd bigP = framed(P, 4.5), bigC = framed(C, -2.5);
+                const MatrixXd bigP0 = bigP, bigC0 = bigC;
+                { vf::Entry e("WhiteNoiseAcceleration::getTransitionProbability[Block]");
+                  v = subj->getTransitionProbability(bigP.block(1, 2, P.rows(), P.cols()), bigC.block(1, 2, C.rows(), C.cols())); }
+                vf::out_int(name + "_input_kept", vf::bit_equal(bigP, bigP0) && vf::bit_equal(bigC, bigC0) ? 1 : 0);
+            }
             out_shape(name, v);
+            if (ref_diff_at < 0 && !vf::bit_equal(MatrixXd(v), ref_out[(std::size_t)k])) ref_diff_at = k;
+        } else if (op[0] == 's') {
+            bool r;
+            { vf::Entry e("StateModel::setSamplingTime"); r = subj->setSamplingTime(c.mat("S" + std::to_string(arg))(0, 0)); }
+            vf::out_int(name + "_ret", r ? 1 : 0);
+            getters(name);
+        } else if (op[0] == 'c') {
+            // move construction from the current subject (fresh or used); the moved-from object is destroyed at once
+            std::unique_ptr<IntrWNA> nw;
+            { vf::Entry e("WhiteNoiseAcceleration::WhiteNoiseAcceleration(WhiteNoiseAcceleration&&)"); nw.reset(new IntrWNA(std::move(*subj))); }
+            vec.clear(); heap = std::move(nw); subj = heap.get();
+            getters(name);
+        } else if (op[0] == 'a') {
+            // move assignment onto an object with other parameters that has already been used
+            std::unique_ptr<IntrWNA> other = make_wna(dim2, T2, q2, seed2 + 3u, false);
+            { vf::Entry e("WhiteNoiseAcceleration::getNoiseSample"); if (pre2 > 0) other->getNoiseSample((std::size_t)pre2); }
+            { vf::Entry e("WhiteNoiseAcceleration::operator=(WhiteNoiseAcceleration&&)"); *other = std::move(*subj); }
+            vec.clear(); heap = std::move(other); subj = heap.get();
+            getters(name);
+        } else if (op[0] == 'v') {
+            // the subject becomes the first element of a vector that then grows (reallocation moves the elements)
+            std::vector<IntrWNA> nv;
+            { vf::Entry e("std::vector<WhiteNoiseAcceleration>::push_back");
+              nv.push_back(std::move(*subj));
+              for (unsigned int i = 0; i < 4; i++) nv.push_back(IntrWNA(dim_of(dim2), T2 * (1.0 + i), q2, seed2 + 5u + i)); }
+            vec = std::move(nv); heap.reset(); subj = &vec[0];
+            getters(name);
         }
+        if (intrude) twin.cycle();      // and between the calls
         k++;
     }
+    vf::clear_intruder();
+    vf::out_int("intruder_calls", intrude ? (long)vf::intruder_state().calls : 0);
+    vf::out_int("ref_diff_at", ref_diff_at);
     vf::out_mat("draws", mir.mat());
+    if (c.has_int("conc") && c.integer("conc") != 0) {
+        // three models with other parameters and data of the same shapes, one thread each: every result must be the
+        // sequential one, bit for bit
+        std::vector<std::function<MatrixXd()>> jobs;
+        for (int t = 0; t < 3; t++) {
+            const double Tt = T * (1.0 + 0.37 * t), qt = q * (1.0 + 0.61 * t); const unsigned int st = seed + 101u * (unsigned int)t;
+            jobs.push_back([dim, d, Tt, qt, st]() {
+                WhiteNoiseAcceleration w(dim_of(dim), Tt, qt, st);
+                Twin data(dim, Tt, qt, st);
+                MatrixXd X = data.data(3), Y = MatrixXd::Zero(d, 3), P = data.data(3), C = P + 0.3 * data.data(3);
+                MatrixXd out = MatrixXd::Zero(d + 3, 10);
+                out.topRows(d).leftCols(3) = w.getNoiseSample(3);
+                w.motion(X, Y); out.topRows(d).middleCols(3, 3) = Y;
+                VectorXd tp = w.getTransitionProbability(P, C);
+                out.col(6).head(3) = tp;
+                out.topRows(d).middleCols(7, 3) = w.getStateTransitionMatrix().leftCols(1).replicate(1, 3) + w.getNoiseCovarianceMatrix().leftCols(1).replicate(1, 3);
+                return out;
+            });
+        }
+        vf::out_int("concurrent_ok", concurrent_probe(jobs, 12));
+    }
 }
 
 static void run_lti_state(const vf::Case& c) {
     const MatrixXd& F = c.mat("F"); const MatrixXd& Q = c.mat("Q");
+    const std::string how = c.has_word("how") && !c.word("how").empty() ? c.word("how")[0] : "move_ctor";
     try {
-        vf::Entry e("LTIStateModel::LTIStateModel");
-        ExposedLTIState m(F, Q);
+        std::unique_ptr<ExposedLTIState> m;
+        { vf::Entry e("LTIStateModel::LTIStateModel"); m.reset(new ExposedLTIState(F, Q)); }
         vf::out_str("result", "ok");
-        out_shape("F", m.getStateTransitionMatrix()); out_shape("Q", m.getNoiseCovarianceMatrix()); out_shape("J", m.getJacobian());
-        // the move constructor keeps the matrices too
-        ExposedLTIState m2(std::move(m));
-        vf::out_int("moved_same", vf::bit_equal(m2.getStateTransitionMatrix(), F) && vf::bit_equal(m2.getNoiseCovarianceMatrix(), Q) ? 1 : 0);
+        // how the subject is obtained from the constructed object (hand-written move constructor / move assignment)
+        std::unique_ptr<ExposedLTIState> other; std::vector<ExposedLTIState> vec;
+        ExposedLTIState* subj = m.get();
+        auto make_other = [&]() { return new ExposedLTIState(c.mat("F2"), c.mat("Q2")); };
+        if (how == "move_ctor") {
+            vf::Entry e("LTIStateModel::LTIStateModel(LTIStateModel&&)");
+            other.reset(new ExposedLTIState(std::move(*m))); m.reset(); subj = other.get();
+        } else if (how == "move_assign") {
+            other.reset(make_other());
+            vf::out_int("other_rows_before", other->getStateTransitionMatrix().rows());
+            vf::Entry e("LTIStateModel::operator=(LTIStateModel&&)");
+            *other = std::move(*m); m.reset(); subj = other.get();
+        } else if (how == "self_assign") {
+            vf::Entry e("LTIStateModel::operator=(LTIStateModel&&)");
+            ExposedLTIState& self = *m; *m = std::move(self);
+        } else if (how == "vector") {
+            vf::Entry e("std::vector<LTIStateModel>::push_back");
+            vec.push_back(std::move(*m)); m.reset();
+            for (int i = 0; i < 4; i++) vec.push_back(ExposedLTIState(c.mat("F2"), c.mat("Q2")));
+            subj = &vec[0];
+        } else if (how == "chain") {
+            vf::Entry e("LTIStateModel::operator=(LTIStateModel&&)");
+            ExposedLTIState a(std::move(*m)); m.reset();
+            other.reset(make_other()); *other = std::move(a);
+            m.reset(new ExposedLTIState(std::move(*other))); other.reset(); subj = m.get();
+        }
+        out_shape("F", subj->getStateTransitionMatrix()); out_shape("Q", subj->getNoiseCovarianceMatrix()); out_shape("J", subj->getJacobian());
+        vf::out_int("moved_same", vf::bit_equal(subj->getStateTransitionMatrix(), F) && vf::bit_equal(subj->getNoiseCovarianceMatrix(), Q) ? 1 : 0);
+        // the base-class setSamplingTime / setProperty leave a time-invariant model as it is
+        vf::out_int("sst_ret", subj->setSamplingTime(2.5) ? 1 : 0);
+        vf::out_int("prop_ret", subj->setProperty("reset") ? 1 : 0);
+        out_shape("F_after", subj->getStateTransitionMatrix()); out_shape("Q_after", subj->getNoiseCovarianceMatrix());
     } catch (const std::runtime_error& ex) { vf::out_str("result", classify(ex.what())); }
 }
 
@@ -226,16 +448,30 @@ static void run_linmodel(const vf::Case& c) {
         out_shape("R", R2); vf::out_int("R_valid", ok ? 1 : 0);
         out_shape("sqrtR", m->sqrtR());
         Mirror mir(seed);
+        // interleave = 1: an independent model over the same components with another covariance and seed draws between
+        // the subject's calls (a generator or a work matrix shared between objects would show)
+        std::unique_ptr<ExposedLinearModel> tw;
+        if (c.has_int("interleave") && c.integer("interleave") != 0) tw.reset(new ExposedLinearModel(lmc, MatrixXd(3.0 * R + MatrixXd::Identity(R.rows(), R.cols())), seed + 9u));
         long k = 0;
         for (const std::string& s : c.word("nums")) {
             const int num = std::stoi(s);
             bool v; MatrixXd w;
+            if (tw) { vf::Entry e("LinearModel::getNoiseSample"); tw->noise(num + 1); }
             { vf::Entry e("LinearModel::getNoiseSample"); std::tie(v, w) = m->noise(num); }
             mir.draw(m->sqrtR().cols() * num);
             out_shape("r" + std::to_string(k), w); vf::out_int("r" + std::to_string(k) + "_valid", v ? 1 : 0);
             k++;
         }
         vf::out_mat("draws", mir.mat());
+        if (c.has_int("conc") && c.integer("conc") != 0) {
+            // three sensor models with their own covariances and seeds, one thread each
+            std::vector<std::function<MatrixXd()>> jobs;
+            for (int t = 0; t < 3; t++) {
+                const MatrixXd Rt = (1.0 + 0.5 * t) * R; const unsigned int st = seed + 13u * (unsigned int)t;
+                jobs.push_back([lmc, Rt, st]() { ExposedLinearModel w(lmc, Rt, st); MatrixXd a = w.noise(3).second, b = w.noise(2).second; MatrixXd o(a.rows(), 5); o << a, b; return o; });
+            }
+            vf::out_int("concurrent_ok", concurrent_probe(jobs, 12));
+        }
     } catch (const std::runtime_error& ex) {
         vf::out_str("result", classify(ex.what())); index_error(ex.what());
     }
@@ -253,15 +489,80 @@ static void run_sim(const vf::Case& c, bool with_sensor) {
     const unsigned int seed = defseed ? 1u : (unsigned int)c.integer("seed");
     const long d = 2 * dim; const long len = c.integer("len");
     const MatrixXd& x0 = c.mat("x0");
+    const long premove = c.has_int("premove") ? c.integer("premove") : -1;
+    // reference: the same pipeline built from the same arguments, its state model never moved, used while no other object
+    // is, serving the same call sequence; the subject must return the same values bit for bit
+    std::vector<long> ref_ret; std::vector<MatrixXd> ref_val;
+    if (len > 0) {
+        vf::Entry e("SimulatedStateModel::SimulatedStateModel");
+        Quiet quiet;
+        std::unique_ptr<IntrWNA> rw = make_wna(dim, T, q, seed, defseed);
+        rw->getNoiseSample((std::size_t)d);
+        if (premove > 0) rw->getNoiseSample((std::size_t)premove);
+        std::unique_ptr<StateModel> rsm(std::move(rw));
+        VectorXd v0 = x0.col(0);
+        std::unique_ptr<SimulatedStateModel> rsim(new SimulatedStateModel(std::move(rsm), v0, (unsigned int)len));
+        SimulatedStateModel* rp = rsim.get();
+        std::unique_ptr<SimulatedLinearSensor> rsens;
+        if (with_sensor) {
+            LinearModel::LinearMatrixComponent lmc{(std::size_t)d, indices(c.word("idxs"))};
+            const bool ds2 = c.has_int("defseed2") && c.integer("defseed2") != 0;
+            if (ds2) rsens.reset(new SimulatedLinearSensor(std::move(rsim), lmc, c.mat("R")));
+            else rsens.reset(new SimulatedLinearSensor(std::move(rsim), lmc, c.mat("R"), (unsigned int)c.integer("seed2")));
+        }
+        for (const std::string& op : c.word("ops")) {
+            bool r;
+            if (op == "b") { vf::Entry e2("SimulatedStateModel::bufferData"); r = rp->bufferData(); }
+            else if (op == "f") { vf::Entry e2("SimulatedLinearSensor::freeze"); r = rsens->freeze(); }
+            else if (op == "r") r = rp->setProperty("reset"); else r = rp->setProperty("other");
+            ref_ret.push_back(r ? 1 : 0);
+            if (with_sensor) ref_val.push_back(any::any_cast<MatrixXd>(rsens->measure().second));
+            else { Data dt = rp->getData(); ref_val.push_back(dt.has_value() ? any::any_cast<MatrixXd>(dt) : MatrixXd()); }
+        }
+    }
+    long ref_diff_at = -1;
     std::unique_ptr<SimulatedStateModel> sim;
     Mirror mir(seed);
-    std::unique_ptr<WhiteNoiseAcceleration> wnap = make_wna(dim, T, q, seed, defseed);
+    std::unique_ptr<IntrWNA> wnap = make_wna(dim, T, q, seed, defseed);
     probe(*wnap, mir, dim, T, q, seed, defseed, d);
+    // premove >= 0: the state model draws that many further samples and is then obtained by move construction
+    if (premove >= 0) {
+        { vf::Entry e("WhiteNoiseAcceleration::getNoiseSample"); if (premove > 0) wnap->getNoiseSample((std::size_t)premove); }
+        mir.draw(d * premove); mir.from = mir.all.size();
+        vf::Entry e("WhiteNoiseAcceleration::WhiteNoiseAcceleration(WhiteNoiseAcceleration&&)");
+        std::unique_ptr<IntrWNA> nw(new IntrWNA(std::move(*wnap))); wnap = std::move(nw);
+    }
+    // intrude = 1: inside every virtual callback of the subject's state model / simulated model, and between the calls,
+    // an independent twin (model, trajectory with its own cursor, sensor) of the same shapes is used
+    const bool intrude = c.has_int("intrude") && c.integer("intrude") != 0;
+    Twin twin(dim, 1.7 * T, 0.4 * q, seed + 29u);
+    std::unique_ptr<SimulatedStateModel> twin_sim_owner; SimulatedStateModel* twin_sim = nullptr;
+    std::unique_ptr<SimulatedLinearSensor> twin_sensor;
+    long twin_calls = 0;
+    if (intrude) {
+        std::unique_ptr<StateModel> tw(new WhiteNoiseAcceleration(dim_of(dim), 0.6 * T, 2.5 * q, seed + 31u));
+        VectorXd t0 = -2.0 * x0.col(0);
+        twin_sim_owner.reset(new SimulatedStateModel(std::move(tw), t0, 4u)); twin_sim = twin_sim_owner.get();
+        if (with_sensor) {
+            LinearModel::LinearMatrixComponent tl{(std::size_t)d, indices(c.word("idxs"))};
+            const MatrixXd& R = c.mat("R");
+            twin_sensor.reset(new SimulatedLinearSensor(std::move(twin_sim_owner), tl, MatrixXd(2.0 * R), (unsigned int)c.integer("seed2") + 3u));
+        }
+        vf::set_intruder([&]() {
+            Quiet quiet;
+            twin.cycle();
+            twin_calls++;
+            if (twin_calls % 3 == 0) twin_sim->setProperty("reset");
+            if (twin_sensor) { vf::Entry e("SimulatedLinearSensor::freeze"); twin_sensor->freeze(); twin_sensor->measure(); }
+            else { vf::Entry e("SimulatedStateModel::bufferData"); twin_sim->bufferData(); twin_sim->getData(); }
+        });
+    }
+    struct ClearIntruder { ~ClearIntruder() { vf::clear_intruder(); } } clear_intruder_at_exit;
     try {
         vf::Entry e("SimulatedStateModel::SimulatedStateModel");
         std::unique_ptr<StateModel> wna(std::move(wnap));
         VectorXd v0 = x0.col(0);
-        sim.reset(new SimulatedStateModel(std::move(wna), v0, (unsigned int)len));
+        sim.reset(new IntrSim(std::move(wna), v0, (unsigned int)len));
     } catch (const std::runtime_error& ex) {
         const std::string what = ex.what();
         vf::out_str("ctor", what.find("SIMULATEDSTATEMODEL::CTOR") != std::string::npos && what.find("at least 1") != std::string::npos ? "throws_empty" : "throws_other");
@@ -283,9 +584,15 @@ static void run_sim(const vf::Case& c, bool with_sensor) {
                 else { vf::Entry e("SimulatedStateModel::setProperty"); r = simp->setProperty("other"); }
             }
             vf::out_int("ret" + std::to_string(k), r ? 1 : 0);
-            out_data("data" + std::to_string(k), simp->getData());
+            Data dnow = simp->getData();
+            out_data("data" + std::to_string(k), dnow);
+            if (ref_diff_at < 0 && (ref_ret[(std::size_t)k] != (r ? 1 : 0) ||
+                                    !vf::bit_equal(dnow.has_value() ? any::any_cast<MatrixXd>(dnow) : MatrixXd(), ref_val[(std::size_t)k]))) ref_diff_at = k;
+            vf::intrude();
             k++;
         }
+        vf::out_int("intruder_calls", intrude ? (long)vf::intruder_state().calls : 0);
+        vf::out_int("ref_diff_at", ref_diff_at);
     } else {
         const MatrixXd& R = c.mat("R");
         const bool defseed2 = c.has_int("defseed2") && c.integer("defseed2") != 0;
@@ -326,9 +633,39 @@ static void run_sim(const vf::Case& c, bool with_sensor) {
             { vf::Entry e("SimulatedLinearSensor::measure"); std::tie(ok, dt) = sens->measure(); }
             vf::out_int("meas" + std::to_string(k) + "_valid", ok ? 1 : 0);
             out_shape("meas" + std::to_string(k), any::any_cast<MatrixXd>(dt));
+            if (ref_diff_at < 0 && (ref_ret[(std::size_t)k] != (r ? 1 : 0) || !vf::bit_equal(any::any_cast<MatrixXd>(dt), ref_val[(std::size_t)k]))) ref_diff_at = k;
+            vf::intrude();
             k++;
         }
+        vf::out_int("intruder_calls", intrude ? (long)vf::intruder_state().calls : 0);
+        vf::out_int("ref_diff_at", ref_diff_at);
         vf::out_mat("draws2", mir2.mat());
+    }
+    if (c.has_int("conc") && c.integer("conc") != 0) {
+        // three pipelines (model, trajectory of length 4 with a reset in the middle, sensor) with their own parameters, one thread each
+        vf::clear_intruder();
+        std::vector<std::function<MatrixXd()>> jobs;
+        const std::vector<std::size_t> ix = with_sensor ? indices(c.word("idxs")) : std::vector<std::size_t>{0};
+        const MatrixXd Rs = with_sensor ? c.mat("R") : MatrixXd::Identity(1, 1);
+        for (int t = 0; t < 3; t++) {
+            const double Tt = T * (1.0 + 0.41 * t), qt = q * (1.0 + 0.23 * t); const unsigned int st = seed + 7u * (unsigned int)t;
+            const VectorXd xt = (1.0 + t) * x0.col(0);
+            jobs.push_back([dim, d, Tt, qt, st, xt, ix, Rs, t]() {
+                std::unique_ptr<StateModel> w(new WhiteNoiseAcceleration(dim_of(dim), Tt, qt, st));
+                std::unique_ptr<SimulatedStateModel> sm(new SimulatedStateModel(std::move(w), xt, 4u));
+                SimulatedStateModel* p = sm.get();
+                LinearModel::LinearMatrixComponent lmc{(std::size_t)d, ix};
+                SimulatedLinearSensor sens(std::move(sm), lmc, MatrixXd((1.0 + t) * Rs), st + 1u);
+                MatrixXd out = MatrixXd::Zero(d + (long)ix.size(), 6);
+                for (int k = 0; k < 6; k++) {
+                    if (!sens.freeze()) continue;
+                    out.col(k).head(d) = any::any_cast<MatrixXd>(p->getData());
+                    out.col(k).tail((long)ix.size()) = any::any_cast<MatrixXd>(sens.measure().second);
+                }
+                return out;
+            });
+        }
+        vf::out_int("concurrent_ok", concurrent_probe(jobs, 8));
     }
 }
 
@@ -344,6 +681,128 @@ static void run_grid(const vf::Case& c) {
     vf::out_int("ret", r ? 1 : 0);
     out_shape("state", ps.state()); out_shape("weight", ps.weight());
     vf::out_int("components", (long)ps.components);
+}
+
+// A user-defined additive linear model: an LTIStateModel whose state has linear and circular (Euler) components and
+// whose getNoiseSample serves the columns of a given matrix in order (no random numbers).
+struct UserLTI : public LTIStateModel {
+    VectorDescription desc; MatrixXd W; long next = 0;
+    UserLTI(const MatrixXd& F, const MatrixXd& Q, std::size_t lin, std::size_t circ, const MatrixXd& W_) : LTIStateModel(F, Q), desc(lin, circ), W(W_) {}
+    UserLTI(UserLTI&&) = default;
+    UserLTI& operator=(UserLTI&&) = default;
+    VectorDescription getStateDescription() override { vf::intrude(); return desc; }
+    MatrixXd getNoiseSample(const std::size_t num) override {
+        vf::intrude();
+        MatrixXd w = MatrixXd::Zero(W.rows(), (long)num);
+        for (long j = 0; j < (long)num; j++) if (next + j < W.cols()) w.col(j) = W.col(next + j);
+        next += (long)num;
+        return w;
+    }
+};
+
+//   ltisim [int lin, int circ, mat F, mat Q, mat W n x (len-1), mat x0, int len, word how (fresh | move_ctor | move_assign),
+//           mat F2 Q2 (the other object), word ops (b|f / r / o), int sensor, word idxs, mat R, int seed2]
+static void run_ltisim(const vf::Case& c) {
+    const long lin = c.integer("lin"), circ = c.integer("circ"), n = lin + circ, len = c.integer("len");
+    const bool with_sensor = c.integer("sensor") != 0;
+    const std::string how = c.word("how").empty() ? "fresh" : c.word("how")[0];
+    std::unique_ptr<UserLTI> um(new UserLTI(c.mat("F"), c.mat("Q"), (std::size_t)lin, (std::size_t)circ, c.mat("W")));
+    if (how == "move_ctor") { std::unique_ptr<UserLTI> nw(new UserLTI(std::move(*um))); um = std::move(nw); }
+    else if (how == "move_assign") {
+        std::unique_ptr<UserLTI> other(new UserLTI(c.mat("F2"), c.mat("Q2"), 1, 0, MatrixXd::Constant(c.mat("F2").rows(), 2, 0.5)));
+        other->getNoiseSample(1);
+        *other = std::move(*um); um = std::move(other);
+    }
+    std::unique_ptr<StateModel> sm(std::move(um));
+    VectorXd v0 = c.mat("x0").col(0);
+    std::unique_ptr<SimulatedStateModel> sim;
+    { vf::Entry e("SimulatedStateModel::SimulatedStateModel"); sim.reset(new IntrSim(std::move(sm), v0, (unsigned int)len)); }
+    SimulatedStateModel* simp = sim.get();
+    std::unique_ptr<ExposedSensor> sens;
+    Mirror mir2((unsigned int)c.integer("seed2"));
+    if (with_sensor) {
+        LinearModel::LinearMatrixComponent lmc{(std::size_t)n, indices(c.word("idxs"))};
+        { vf::Entry e("SimulatedLinearSensor::SimulatedLinearSensor"); sens.reset(new ExposedSensor(std::move(sim), lmc, c.mat("R"), (unsigned int)c.integer("seed2"))); }
+        out_shape("H", sens->getMeasurementMatrix()); out_shape("sqrtR", sens->sqrtR());
+        vf::out_int("meas_size", (long)sens->getMeasurementDescription().total_size());
+        vf::out_int("meas_lin", (long)sens->getMeasurementDescription().linear_components());
+        vf::out_int("meas_circ", (long)sens->getMeasurementDescription().circular_components());
+        vf::out_int("input_size", (long)sens->getInputDescription().total_size());
+        vf::out_int("input_lin", (long)sens->getInputDescription().linear_components());
+        vf::out_int("input_circ", (long)sens->getInputDescription().circular_components());
+        vf::out_int("input_noise", (long)sens->getInputDescription().noise_components());
+    }
+    long k = 0;
+    for (const std::string& op : c.word("ops")) {
+        bool r = false;
+        {
+            Quiet quiet;
+            if (op == "b") { vf::Entry e("SimulatedStateModel::bufferData"); r = simp->bufferData(); }
+            else if (op == "f") { { vf::Entry e("SimulatedLinearSensor::freeze"); r = sens->freeze(); } if (r) mir2.draw(sens->sqrtR().cols()); }
+            else if (op == "r") { vf::Entry e("SimulatedStateModel::setProperty"); r = simp->setProperty("reset"); }
+            else { vf::Entry e("SimulatedStateModel::setProperty"); r = simp->setProperty("other"); }
+        }
+        vf::out_int("ret" + std::to_string(k), r ? 1 : 0);
+        out_data("data" + std::to_string(k), simp->getData());
+        if (with_sensor) out_shape("meas" + std::to_string(k), any::any_cast<MatrixXd>(sens->measure().second));
+        k++;
+    }
+    if (with_sensor) vf::out_mat("draws2", mir2.mat());
+}
+
+// two initialisers alive at the same time, applied in any order and repeatedly to a pool of particle sets of several
+// sizes / row counts / layouts; a set keeps whatever the previous call (or the previous fill) left in it
+static void run_gridseq(const vf::Case& c) {
+    std::vector<std::unique_ptr<InitSurveillanceAreaGrid>> inits;
+    for (int i = 0; i < 2; i++) {
+        const std::string t = std::to_string(i);
+        const MatrixXd& a = c.mat("area" + t); const unsigned int nx = (unsigned int)c.integer("nx" + t), ny = (unsigned int)c.integer("ny" + t);
+        std::unique_ptr<InitSurveillanceAreaGrid> g;
+        if (c.integer("ctor4_" + t)) g.reset(new InitSurveillanceAreaGrid(a(0, 1), a(0, 3), nx, ny));
+        else g.reset(new InitSurveillanceAreaGrid(a(0, 0), a(0, 1), a(0, 2), a(0, 3), nx, ny));
+        if (i == 1 && c.has_int("copy1") && c.integer("copy1")) {      // obtained by copy construction, the original destroyed
+            std::unique_ptr<InitSurveillanceAreaGrid> cp(new InitSurveillanceAreaGrid(*g)); g = std::move(cp);
+        }
+        inits.push_back(std::move(g));
+    }
+    std::vector<std::unique_ptr<ParticleSet>> sets;
+    for (long s_ = 0; s_ < c.integer("nsets"); s_++) {
+        const std::string t = std::to_string(s_);
+        const std::size_t rows = (std::size_t)c.integer("rows" + t), np = (std::size_t)c.integer("np" + t);
+        const std::string layout = c.word("layout" + t).empty() ? "lin" : c.word("layout" + t)[0];
+        std::unique_ptr<ParticleSet> ps;
+        if (layout == "lincirc" && rows >= 1) ps.reset(new ParticleSet(np, rows - 1, 1, false));
+        else if (layout == "quat" && rows >= 4) ps.reset(new ParticleSet(np, rows - 4, 1, true));
+        else if (layout == "linnoise" && rows >= 3) { ps.reset(new ParticleSet(np, rows - 2)); ps->augmentWithNoise(MatrixXd::Identity(2, 2)); }
+        else ps.reset(new ParticleSet(np, rows));
+        sets.push_back(std::move(ps));
+    }
+    for (long k = 0; k < c.integer("steps"); k++) {
+        const std::string t = std::to_string(k);
+        ParticleSet& ps = *sets[(std::size_t)c.integer("set" + t)];
+        if (c.integer("fill" + t)) { ps.state() = c.mat("st" + t); ps.weight() = c.mat("w" + t).col(0); }
+        out_shape("pre_state" + t, ps.state()); out_shape("pre_weight" + t, ps.weight());
+        bool r;
+        { vf::Entry e("InitSurveillanceAreaGrid::initialize"); r = inits[(std::size_t)c.integer("init" + t)]->initialize(ps); }
+        vf::out_int("ret" + t, r ? 1 : 0);
+        out_shape("state" + t, ps.state()); out_shape("weight" + t, ps.weight());
+        vf::out_int("components" + t, (long)ps.components);
+    }
+    if (c.has_int("conc") && c.integer("conc") != 0) {
+        // three initialisers over their own areas and particle sets (same sizes), one thread each
+        std::vector<std::function<MatrixXd()>> jobs;
+        const MatrixXd a = c.mat("area0"); const unsigned int nx = (unsigned int)c.integer("nx0"), ny = (unsigned int)c.integer("ny0");
+        for (int t = 0; t < 3; t++)
+            jobs.push_back([a, nx, ny, t]() {
+                InitSurveillanceAreaGrid g(a(0, 0) - t, a(0, 1) + 2.0 * t, a(0, 2) + t, a(0, 3) + 3.0 * t, nx, ny);
+                ParticleSet ps((std::size_t)(nx * ny), 4);
+                ps.state().setConstant(1.5 + t);
+                g.initialize(ps);
+                MatrixXd o(5, (long)(nx * ny)); o.topRows(4) = ps.state(); o.row(4) = ps.weight().transpose();
+                return o;
+            });
+        vf::out_int("concurrent_ok", concurrent_probe(jobs, 12));
+    }
 }
 
 // empirical moments: the property "samples have covariance Q / R" observed without the RNG mirror
@@ -410,6 +869,8 @@ int main() {
         else if (c.kind == "sim") run_sim(c, false);
         else if (c.kind == "sensor") run_sim(c, true);
         else if (c.kind == "grid") run_grid(c);
+        else if (c.kind == "gridseq") run_gridseq(c);
+        else if (c.kind == "ltisim") run_ltisim(c);
         vf::out_end();
     }
     return 0;
